@@ -354,6 +354,8 @@ where
 
     #[puppet]
     async fn on_diff(&self, msg: Diff) -> (StateChanges, StateChanges) {
+        #[cfg(datacake_verif)]
+        crate::verif::ks_diff(self.vid, &self.state, &msg.0);
         self.state.diff(&msg.0)
     }
 
